@@ -19,7 +19,13 @@ fn state(r: &DeferredReader) -> Value {
         .checked_add(st.valid_len)
         .map_or(false, |e| e <= st.buf_len);
     let buf = if sane {
-        bytes_json(r.buf())
+        // the window as exposed by buf() and, independently, through buf_ptr() + buf_len(): both must agree
+        let via_ptr: Vec<u8> = (0..r.buf_len()).map(|i| unsafe { *r.buf_ptr().add(i) }).collect();
+        if via_ptr == r.buf() {
+            bytes_json(r.buf())
+        } else {
+            json!(["buf_ptr disagrees with buf"])
+        }
     } else {
         json!([])
     };
@@ -258,6 +264,8 @@ pub fn one_history(id: u64, seed: u64, max_ops: usize, max_len: usize, panics: b
         }
         let _ = stats;
         DeferredReader::from_buf_reader(br)
+    } else if rng.gen_range(0..3) == 0 {
+        DeferredReader::from_boxed_dyn_read(Box::new(src))
     } else {
         DeferredReader::from_read(src)
     };
@@ -327,7 +335,8 @@ pub fn one_history(id: u64, seed: u64, max_ops: usize, max_len: usize, panics: b
             35..=49 => {
                 let k = rng.gen_range(0..=10usize);
                 trace::rec(json!({"ev":"call","op":"byte_at","arg":k}));
-                let r = catch(|| reader.request_byte_at_offset(k));
+                // request_byte() is request_byte_at_offset(0)
+                let r = catch(|| if k == 0 && rng.gen_bool(0.5) { reader.request_byte() } else { reader.request_byte_at_offset(k) });
                 match r {
                     Ok(b) => trace::rec(merge(json!({"ev":"ret","op":"byte_at","panic":false,
                         "val": b.map_or(-1i64, |x| x as i64)}), state(&reader))),
@@ -349,9 +358,14 @@ pub fn one_history(id: u64, seed: u64, max_ops: usize, max_len: usize, panics: b
                 } else {
                     rng.gen_range(0..=avail)
                 };
+                let unchecked = !with_buf && n <= avail && rng.gen_range(0..3) == 0;
                 let r = catch(|| {
                     if with_buf {
                         Some(reader.advance_with_buf(n).to_vec())
+                    } else if unchecked {
+                        // SAFETY: n <= buf_len()
+                        unsafe { reader.advance_unchecked(n) };
+                        None
                     } else {
                         reader.advance(n);
                         None
